@@ -4,7 +4,9 @@ Proof: Poly/Props/C08.lean (the RFC-split root committed in the header equals th
 every list; every path produced by MerkleLeafPath verifies with MerkleProve against the committed root and
 yields exactly the record; an accepted path can only yield a committed record). Tie: correspondence streams
 `mserve` (tree builders) and `mledger` (a real LedgerStoreImp on a temp dir: blocks whose transactions emit
-cross-chain records, GetCrossStatesProof / GetMerkleProof verified against the stored header roots).
+cross-chain records - through a test contract, the real MakeTransaction and the real ImportOuterTransfer entrance
+over the vote router - with headers built by the vbft proposer code; GetCrossStatesProof / GetMerkleProof verified
+against the stored header roots, several (h, r) pairs served by one running node in varying orders).
 """
 
 
